@@ -1,8 +1,303 @@
-/- Model driver for C16 (stub: no ops yet). -/
+/-
+  Model driver for C16 (designday.py / ddy.py / location.py).  Line protocol: see DrvCore.
+  Strings travel hex-encoded (UTF-8) with prefix `x`; numbers of the IDF layer are their Python `str()`
+  text (hex-encoded as well) – the model treats them as opaque tokens (`NumTok String`).
+-/
 import Ladybug.DrvCore
+import Ladybug.Model.DesignDay
+
+open Drv DD
 
 namespace DrvC16
-def handle (_toks : List String) : String := "bad-op"
+
+/-! ### hex strings -/
+
+def hexVal? (c : Char) : Option Nat := hexDigit? c
+
+def bytesOfHex : List Char → Option (List UInt8)
+  | [] => some []
+  | [_] => none
+  | a :: b :: rest => do
+    let x ← hexVal? a
+    let y ← hexVal? b
+    let tl ← bytesOfHex rest
+    pure (UInt8.ofNat (x * 16 + y) :: tl)
+
+/-- token `x<hex>` -> string -/
+def str? (t : String) : Option String :=
+  match t.toList with
+  | 'x' :: cs => do
+    let bs ← bytesOfHex cs
+    String.fromUTF8? (ByteArray.mk bs.toArray)
+  | _ => none
+
+def hexByte (b : UInt8) : String := hexOfNat b.toNat 2
+
+def encStr (s : String) : String := "x" ++ String.join (s.toUTF8.toList.map hexByte)
+
+/-! ### numbers as text tokens -/
+
+def digitsVal (cs : List Char) : Nat := cs.foldl (fun acc c => acc * 10 + (c.toNat - '0'.toNat)) 0
+
+/-- Exact value of a decimal / scientific literal (the subset of `float()` syntax that is generated). -/
+def parseDec (s : String) : Option Rat :=
+  let cs := (strip s).toList
+  let (neg, cs) := match cs with
+    | '-' :: r => (true, r)
+    | '+' :: r => (false, r)
+    | r => (false, r)
+  let ip := cs.takeWhile Char.isDigit
+  let r1 := cs.dropWhile Char.isDigit
+  let (fp, r2) := match r1 with
+    | '.' :: r => (r.takeWhile Char.isDigit, r.dropWhile Char.isDigit)
+    | r => ([], r)
+  if ip.isEmpty && fp.isEmpty then none
+  else
+    let expo : Option Int := match r2 with
+      | [] => some 0
+      | e :: r =>
+        if e == 'e' || e == 'E' then
+          match r with
+          | '+' :: d => if d.isEmpty || !d.all Char.isDigit then none else some (digitsVal d : Int)
+          | '-' :: d => if d.isEmpty || !d.all Char.isDigit then none else some (-(digitsVal d : Int))
+          | d => if d.isEmpty || !d.all Char.isDigit then none else some (digitsVal d : Int)
+        else none
+    match expo with
+    | none => none
+    | some ex =>
+      let mant : Rat := (digitsVal (ip ++ fp) : Nat)
+      let e10 : Int := ex - fp.length
+      let v := if 0 ≤ e10 then mant * ((10 ^ e10.toNat : Nat) : Rat) else mant / ((10 ^ (-e10).toNat : Nat) : Rat)
+      some (if neg then -v else v)
+
+instance : NumTok String where
+  render := id
+  parse := fun s => if (parseDec s).isSome then some (strip s) else none
+  zero := "0"
+  toRat := fun s => (parseDec s).getD 0
+
+/-! ### float lists -/
+
+def finite (x : Float) : Bool := !(x.isNaN || x.isInf)
+
+def showFloats (l : List Float) : String :=
+  if l.all finite then "ok " ++ joinSp (l.map showFloatBits) else "nonfinite"
+
+def humType? (s : String) : Option Psychro.HumType :=
+  if s = "Wetbulb" then some .wetbulb
+  else if s = "Dewpoint" then some .dewpoint
+  else if s = "HumidityRatio" then some .humidityRatio
+  else if s = "Enthalpy" then some .enthalpy
+  else none
+
+/-! ### design days on the wire -/
+
+def showErr : DD.Err → String
+  | .value => "err:value"
+  | .index => "err:index"
+  | .assert => "err:assert"
+
+def showCalErr : Cal.Err → String
+  | .value => "err:value"
+  | .index => "err:index"
+  | .type => "err:type"
+
+def num (s : String) : String := "n" ++ (encStr s).drop 1
+
+def showDD (d : DesignDay String) : String :=
+  let sky := match d.sky.kind with
+    | .base b f => ["base", encStr b, encStr f]
+    | .clear c => ["clear", num c]
+    | .tau b t u => ["tau", num b, num t, showBool u]
+  joinSp ([encStr d.name, encStr d.dayType, num d.db.max, num d.db.range, encStr d.db.modType,
+    encStr d.db.modSched, humTypeName d.hum.ty, num d.hum.value, num d.hum.pressure, showBool d.hum.rain,
+    showBool d.hum.snow, encStr d.hum.schedule,
+    (match d.hum.wetBulbRange with | .blank => "-" | .num x => num x),
+    num d.wind.speed, num d.wind.dir, toString d.sky.date.month, toString d.sky.date.day,
+    showBool d.sky.date.leap, showBool d.sky.dst] ++ sky)
+
+def showLoc (l : Loc String) : String :=
+  joinSp [encStr l.city, num l.lat, num l.lon, num l.tz, num l.elev]
+
+/-- 23 tokens -> design day -/
+def dd? (t : List String) : Option (DesignDay String × List String) :=
+  match t with
+  | name :: dayType :: dbMax :: dbRange :: modType :: modSched :: hty :: hval :: press :: rain :: snow ::
+      sched :: wbr :: ws :: wd :: mo :: da :: leap :: dst :: kind :: a1 :: a2 :: a3 :: rest => do
+    let name ← str? name
+    let dayType ← str? dayType
+    let dbMax ← str? dbMax
+    let dbRange ← str? dbRange
+    let modType ← str? modType
+    let modSched ← str? modSched
+    let ty ← humType? hty
+    let hval ← str? hval
+    let press ← str? press
+    let rain ← bool? rain
+    let snow ← bool? snow
+    let sched ← str? sched
+    let wbr : WBR String ← if wbr = "-" then some .blank else (fun s => WBR.num s) <$> str? wbr
+    let ws ← str? ws
+    let wd ← str? wd
+    let mo ← mo.toNat?
+    let da ← da.toNat?
+    let leap ← bool? leap
+    let dst ← bool? dst
+    let x1 ← str? a1
+    let x2 ← str? a2
+    let kind : SkyKind String ←
+      if kind = "base" then some (.base x1 x2)
+      else if kind = "clear" then some (.clear x1)
+      else if kind = "tau" then (fun u => SkyKind.tau x1 x2 u) <$> bool? a3
+      else none
+    pure ({ name := name, dayType := dayType, db := ⟨dbMax, dbRange, modType, modSched⟩,
+            hum := ⟨ty, hval, press, rain, snow, sched, wbr⟩, wind := ⟨ws, wd⟩,
+            sky := ⟨⟨mo, da, leap⟩, dst, kind⟩ }, rest)
+  | _ => none
+
+def dds? : Nat → List String → Option (List (DesignDay String))
+  | 0, [] => some []
+  | 0, _ => none
+  | n + 1, t => do
+    let (d, rest) ← dd? t
+    let tl ← dds? n rest
+    pure (d :: tl)
+
+def loc? (t : List String) : Option (Loc String × List String) :=
+  match t with
+  | c :: la :: lo :: tz :: el :: rest => do
+    pure (⟨← str? c, ← str? la, ← str? lo, ← str? tz, ← str? el⟩, rest)
+  | _ => none
+
+def kv? (toks : List String) : Option (List (String × String)) :=
+  toks.mapM fun t =>
+    match t.splitOn "=" with
+    | [k, v] => do pure (← str? k, ← str? v)
+    | _ => none
+
+def showDts (l : List (Except Cal.Err Cal.DT)) : String :=
+  match collect l with
+  | .error e => showCalErr e
+  | .ok ds => "ok " ++ joinSp (ds.map fun d => toString d.moy)
+
+def date? (leap mo da : String) : Option Cal.D := do
+  pure ⟨← mo.toNat?, ← da.toNat?, ← bool? leap⟩
+
+def handle (toks : List String) : String :=
+  match toks with
+  | ["db", mx, rng] =>
+    match floatBits? mx, floatBits? rng with
+    | some a, some b => showFloats (hourlyDryBulb a b)
+    | _, _ => "bad-op"
+  | ["hum", ty, v, p, mx, rng] =>
+    match humType? ty, floatBits? v, floatBits? p, floatBits? mx, floatBits? rng with
+    | some ty, some v, some p, some mx, some rng =>
+      let m := Psychro.ddDewPoint ty v p mx
+      let dbs := hourlyDryBulb mx rng
+      showFloats (Psychro.ddHourlyDewPoint m dbs ++ Psychro.ddHourlyRelHumid m dbs)
+    | _, _, _, _, _ => "bad-op"
+  | ["cover", c] =>
+    match floatBits? c with
+    | some c => showFloats (clearSkyCover c)
+    | none => "bad-op"
+  | ["hdts", leap, mo, da] =>
+    match date? leap mo da with
+    | some d => showDts (hourlyDatetimesOff Gen.DD.hourlyDayOffset d)
+    | none => "bad-op"
+  | ["sdts", leap, mo, da, dst, ts] =>
+    match date? leap mo da, bool? dst, ts.toNat? with
+    | some d, some dst, some ts => showDts (skyDatetimesFloat Gen.DD.skyDayOffset d dst ts)
+    | _, _, _ => "bad-op"
+  | ["sdts_exact", leap, mo, da, dst, ts] =>
+    match date? leap mo da, bool? dst, ts.toNat? with
+    | some d, some dst, some ts => showDts (skyDatetimesExact Gen.DD.skyDayOffset d dst ts)
+    | _, _, _ => "bad-op"
+  | ["sdts_int", leap, mo, da, dst, ts] =>
+    match date? leap mo da, bool? dst, ts.toNat? with
+    | some d, some dst, some ts => showDts (skyDatetimesInt Gen.DD.skyDayOffset d dst ts)
+    | _, _, _ => "bad-op"
+  | ["sky_float_in_day", ts] =>
+    -- is every IEEE offset `i * (1 / ts) * 60` (added to any day start of the year) inside the day?
+    match ts.toNat? with
+    | some ts =>
+      let ok := (List.range 366).all fun day =>
+        (List.range (24 * ts)).all fun i =>
+          match skyMoyFloat ((day : Int) * 1440) ts i with
+          | some x => decide (((day : Int) * 1440 : Int) ≤ Py.truncRat x) && decide (Py.truncRat x < ((day : Int) + 1) * 1440)
+          | none => false
+      "ok " ++ showBool ok
+    | none => "bad-op"
+  | "to_idf" :: rest =>
+    match dd? rest with
+    | some (d, []) =>
+      match toIdf d with
+      | some s => "ok " ++ encStr s
+      | none => "err:index"
+    | _ => "bad-op"
+  | ["from_idf", text] =>
+    match str? text with
+    | some s =>
+      match (fromIdf s : Except DD.Err (DesignDay String)) with
+      | .ok d => "ok " ++ showDD d
+      | .error e => showErr e
+    | none => "bad-op"
+  | "roundtrip" :: rest =>
+    -- field-level round trip of the model itself (what the theorem is about), tail = "!"
+    match dd? rest with
+    | some (d, []) =>
+      match (fromIdfFields (writtenFields d "!") : Except DD.Err (DesignDay String)) with
+      | .ok d' => "ok " ++ showBool (decide (d' = d)) ++ " " ++ showDD d'
+      | .error e => showErr e
+    | _ => "bad-op"
+  | "loc_to_idf" :: rest =>
+    match loc? rest with
+    | some (l, []) => "ok " ++ encStr (locToIdf l)
+    | _ => "bad-op"
+  | ["loc_from_idf", text] =>
+    match str? text with
+    | some s =>
+      match (locFromIdf s : Except DD.Err (Loc String)) with
+      | .ok l => "ok " ++ showLoc l
+      | .error e => showErr e
+    | none => "bad-op"
+  | "ddy_to_string" :: n :: rest =>
+    match n.toNat?, loc? rest with
+    | some n, some (l, rest) =>
+      match dds? n rest with
+      | some ds =>
+        match ddyToString (⟨l, ds⟩ : DDY String) with
+        | some s => "ok " ++ encStr s
+        | none => "err:index"
+      | none => "bad-op"
+    | _, _ => "bad-op"
+  | ["ddy_from_string", text] =>
+    match str? text with
+    | some s =>
+      match (ddyFromString s : Except DD.Err (DDY String)) with
+      | .ok y => "ok " ++ toString y.days.length ++ " " ++ showLoc y.loc ++ " " ++ joinSp (y.days.map showDD)
+      | .error e => showErr e
+    | none => "bad-op"
+  | "ashrae_h" :: use990 :: city :: press :: kvs =>
+    match bool? use990, str? city, str? press, kv? kvs with
+    | some u, some c, some p, some kv =>
+      match (fromAshraeHeating kv c u p : Except DD.Err (DesignDay String)) with
+      | .ok d => "ok " ++ showDD d
+      | .error e => showErr e
+    | _, _, _, _ => "bad-op"
+  | "ashrae_c" :: use010 :: city :: press :: tb :: td :: kvs =>
+    match bool? use010, str? city, str? press, kv? kvs with
+    | some u, some c, some p, some kv =>
+      let tau : Option (Option (String × String)) :=
+        if tb = "-" then some none else do pure (some (← str? tb, ← str? td))
+      match tau with
+      | some tau =>
+        match (fromAshraeCooling kv c u p tau "1" : Except DD.Err (DesignDay String)) with
+        | .ok d => "ok " ++ showDD d
+        | .error e => showErr e
+      | none => "bad-op"
+    | _, _, _, _ => "bad-op"
+  | _ => "bad-op"
+
 end DrvC16
 
 def main : IO Unit := Drv.run DrvC16.handle
